@@ -74,3 +74,28 @@ theorem solved_objectives (e : Env K n p m) (d0 : Data K n p m) (hk : e.pk ≠ .
 end objectives
 end Piqp.C09
 
+namespace Piqp.C09
+section identity
+open Finset Piqp.C13 Piqp.C15 Piqp.C01
+variable {K : Type} [Field K] [LinearOrder K] [IsStrictOrderedRing K]
+variable {n p m : Nat}
+
+/-- the same for the identity preconditioner: at SOLVED the reported objectives are those of the stored (= the user's)
+    problem at the returned point -/
+theorem solved_objectives_identity (e : Env K n p m) (hk : e.pk = .identity) (ls : LoopState K n p m) (h0 : ls.c.iter = 0)
+    (hsolved : (mainLoop e ls).2 = Status.solved) :
+    let w := (mainLoop e ls).1.w
+    let info := (mainLoop e ls).1.info
+    info.status = Status.solved ∧
+    info.primalObj = e.cs.c0_5 * userQuad e.data w.x + ∑ i : Fin n, e.data.c[i] * w.x[i] ∧
+    info.dualObj = -e.cs.c0_5 * userQuad e.data w.x - (∑ t : Fin p, e.data.b[t] * w.y[t]) - (∑ t : Fin m, e.data.h[t] * w.z[t])
+        - (∑ a : Fin n, if a.val < e.data.lb.cnt then e.data.lb.val[a] * w.z_lb[a] else 0)
+        - (∑ a : Fin n, if a.val < e.data.ub.cnt then e.data.ub.val[a] * w.z_ub[a] else 0) := by
+  have h := solved_objectives (asRuiz e) e.data (by simp [asRuiz]) (scaled_unit e.data) (invFull_unit e.data) ls h0
+    (by rw [mainLoop_asRuiz e hk]; exact hsolved)
+  rw [mainLoop_asRuiz e hk] at h
+  simp only [asRuiz, u_primal e.data e.pre, u_dualEq e.data e.pre, u_dualIneq e.data e.pre, u_dualLb e.data e.pre,
+    u_dualUb e.data e.pre, id_primal, id_dualEq, id_dualIneq, id_dualLb, id_dualUb] at h
+  exact ⟨h.1, h.2.1, h.2.2.1⟩
+end identity
+end Piqp.C09
